@@ -128,6 +128,8 @@ def run(tier, seed):
 
     def make_cases():
         yield from gen_forms.form_programs()
+        yield from G.cross_programs(seed, compatible_cases=False)
+        yield from G.switch_programs(seed, compatible_cases=False)
         yield from G.programs(G.FULL, 2, 3, seed, G.SECOND_ROUTINES)
         yield from G.programs(G.FULL, 3, 3, seed, ("none",) if quick else ("none", "target_label", "jump_back"), min_n=3)
         if not quick:
